@@ -126,7 +126,20 @@ func init() {
 				}
 			}
 		case "NewLeaseSet":
-			d, err := buildDest(identityModel(st, m.Int("ct"), id.pub, rng))
+			var d *destination.Destination
+			var err error
+			if m.Has("idbase") {
+				// a Destination that constructors cannot build (NULL certificate): parsed from the specification's
+				// identity encoding with the generated signing key put into the slot the specification names
+				base := append([]byte{}, m.Bytes("idbase")...)
+				if !put(base, slotOf(m, "idslot"), id.pub) {
+					return Res{"setup": false, "err": "identity key slot"}
+				}
+				dd, _, derr := destination.ReadDestination(base)
+				d, err = &dd, derr
+			} else {
+				d, err = buildDest(identityModel(st, m.Int("ct"), id.pub, rng))
+			}
 			if err != nil {
 				return Res{"setup": false, "err": "destination: " + errStr(err)}
 			}
